@@ -43,7 +43,8 @@ def self_test():
 ARROW_NULLS = {"", "#N/A", "#N/A N/A", "#NA", "-1.#IND", "-1.#QNAN", "-NaN", "-nan", "1.#IND",
                "1.#QNAN", "N/A", "NA", "NULL", "NaN", "n/a", "nan", "null"}
 ARROW_BOOLS = {"1", "0", "true", "false", "True", "False", "TRUE", "FALSE"}
-_NUMERIC = re.compile(r"[+-]?(\d+\.?\d*|\.\d+)([eE][+-]?\d+)?|[+-]?(inf|infinity|nan)", re.I)
+# (Arrow's integer parser also reads unsigned hexadecimal: '0x10' is 16)
+_NUMERIC = re.compile(r"[+-]?(\d+\.?\d*|\.\d+)([eE][+-]?\d+)?|[+-]?(inf|infinity|nan)|0x[0-9a-f]+", re.I)
 _DATELIKE = re.compile(r"\d{4}-\d{1,2}(-\d{1,2})?([T ].*)?|\d{1,2}:\d{2}(:\d{2}(\.\d+)?)?")
 
 
